@@ -346,8 +346,16 @@ func replayFieldCase(c fieldCase, extraHooks map[string]hookFn, vals func(name s
 	pm := catchPanic(func() { quiet(func() { err = test.IsSolved(circuit, witness, R) }) })
 	forgetChips()
 	if pm != "" {
-		// a replay that cannot run reproduces nothing
+		// the repository's honest hint functions refuse operands outside the field: on an input within the
+		// case's declared ranges this means the real code cannot produce the prescribed result at all
+		if strings.Contains(pm, "not in the field") {
+			return false, "the real code cannot be evaluated on this input with honest hint values (" + short(pm, 120) + "); the specification defines a result for it"
+		}
+		// any other replay that cannot run reproduces nothing
 		return true, "replay panicked: " + pm
+	}
+	if err != nil && strings.Contains(err.Error(), "not in the field") {
+		return false, "the real code cannot be evaluated on this input with honest hint values (" + short(err.Error(), 120) + "); the specification defines a result for it"
 	}
 	if caseReg[id].nOuts == 0 {
 		// the case compares acceptance conditions, not returned values: random inputs are rejected
